@@ -87,4 +87,11 @@ TABLE = {
         "text": "Every defining enum type found in /repo/pkg/dialects at check time (249) is probed: every constant, for bitmasks zero and seeded unions of the defined flags, for ordinary enums boundary and seeded values over the whole uint64 range, and junk texts; TLC judges round trip, name rendering, literal decimal rendering (below 2^63), flag-name lists split at ' | ', and rejection of junk.",
         "note": "Trusted: bitmask-ness inferred from the generated MarshalText (XML not shipped); values sampled, not all 2^64.",
     },
+    "C18": {
+        "engine": "wire",
+        "design_ref": "DESIGN.md section 4, C18",
+        "technique": "translation validation: TLA+ meaning function of the dialect XML (XmlDef!Meaning: include order, versions, enum literals, field meaning -> MavMessage layout/CRC_EXTRA) evaluated by TLC against the behaviour of the compiled output of the real generator on grammar-generated documents",
+        "text": "For each grammar-generated document set the real conversion.Convert runs twice (determinism), its output is compiled into a probe binary and observed: ids, reflected struct meaning (names, mavname, wire types, arrays, extensions), CRC_EXTRA, sizes, probe encodings, every enum constant, dialect version. TLC computes the same from the XML abstract syntax with the spec's own parser of value literals, include traversal and layout rules and compares. 14 documents per quick run, 300 in thorough.",
+        "note": "Trusted: XmlDef.tla/MavMessage.tla as the MAVLink meaning; go build as the judge of 'compiles'; the harness's XML printer (documents are valid by construction; duplicate enum values and over-long payloads are not generated).",
+    },
 }
